@@ -588,7 +588,7 @@ func (w *World) guardedSink(s nilSink, ts *taintState, depth int) (bool, string)
 		return true, "elements of the slice were nil-checked by a preceding loop with an error exit"
 	}
 	// a phi (loop-carried or merged value): every incoming value that can be nil must itself be guarded
-	if phi, ok := s.v.(*ssa.Phi); ok && depth < 3 {
+	if phi, ok := s.v.(*ssa.Phi); ok && depth < 5 {
 		all, n := true, 0
 		var hows []string
 		for _, e := range phi.Edges {
@@ -614,7 +614,7 @@ func (w *World) guardedSink(s nilSink, ts *taintState, depth int) (bool, string)
 			return true, "every nil-able incoming value of the merged variable is guarded: " + strings.Join(hows, "; ")
 		}
 	}
-	if depth >= 2 {
+	if depth >= 4 {
 		return false, "no nil test of this value dominates the use"
 	}
 	// rooted at a parameter by a field path: the same path under the argument must be guarded at every call site
@@ -861,6 +861,83 @@ func (w *World) callerGuardsRelPath(cs *Site, arg ssa.Value, rp string) bool {
 				return true
 			}
 			// the call itself sits inside the checking loop, after the check of the current element: not accepted
+		}
+	}
+	// the check may have been extracted into a helper that is handed the same record before this call: the call lies
+	// on the helper's success edge, and the helper rejects nil at the same relative path under its parameter (direct
+	// test with an error exit, or an element-checking loop)
+	for _, s2 := range w.CG().Sites[fn] {
+		if s2 == cs || len(s2.Callees) != 1 || s2.Invoke {
+			continue
+		}
+		h := s2.Callees[0]
+		call := siteValue(s2)
+		if call == nil || h.Blocks == nil {
+			continue
+		}
+		for i, a2 := range s2.Common().Args {
+			if i >= len(h.Params) {
+				continue
+			}
+			same := a2 == arg || isRoot(a2)
+			if u, ok := a2.(*ssa.UnOp); ok && u.Op == token.MUL && isRoot(u.X) {
+				same = true
+			}
+			if !same || !OnSuccessEdge(fn, cs.Instr, call) {
+				continue
+			}
+			prm := h.Params[i]
+			hRoot := paramRoot(h, prm)
+			if j := strings.Index(rp, "[*]"); j >= 0 && strings.Count(rp, "[*]") == 1 && !strings.Contains(rp[j+3:], ".") {
+				for _, ec := range elementLoopChecks(h) {
+					if got, ok := relPathTo(ec.Over, hRoot); ok && got == rp[:j] {
+						return true
+					}
+				}
+			}
+			// direct test in the helper with a failing edge on every path to a nil-error return
+			hm := func(v ssa.Value) bool {
+				got, ok := relPathTo(v, hRoot)
+				return ok && got == rp
+			}
+			hedges := EdgesWhere(h, func(base ssa.Value) (bool, bool) {
+				switch c := base.(type) {
+				case *ssa.BinOp:
+					if c.Op != token.EQL && c.Op != token.NEQ {
+						return false, false
+					}
+					var o ssa.Value
+					if isNilConst(c.Y) {
+						o = c.X
+					} else if isNilConst(c.X) {
+						o = c.Y
+					}
+					if o != nil && hm(o) {
+						return c.Op == token.NEQ, true
+					}
+				case *ssa.Call:
+					a := c.Common().Args
+					if len(a) > 0 && hasSuffixAny(callName(c.Common()), ".IsNil") && hm(a[0]) {
+						return false, true
+					}
+				}
+				return false, false
+			})
+			if len(hedges) > 0 {
+				allOK := true
+				for _, ret := range Returns(h) {
+					rv := retVals(ret)
+					if len(rv) == 0 || !isNilConst(rv[len(rv)-1]) {
+						continue
+					}
+					if !MustPass(h, hedges, ret.Block()) {
+						allOK = false
+					}
+				}
+				if allOK {
+					return true
+				}
+			}
 		}
 	}
 	return false
